@@ -3,7 +3,7 @@
    Spec/C01.v, for every input. *)
 From Coq Require Import String.
 From Radius Require Import Base.Bytes Base.Res Base.GoLite Gen.Src Crypto.MD5 Proofs.SrcBase Proofs.SrcCtx Model.SrcRun
-  Model.Attrs Spec.C09 Spec.C01 Proofs.SrcAttrs Model.Packet Proofs.PacketWire Proofs.AttrsWire Proofs.Oracles.
+  Model.Attrs Spec.C09 Spec.C01 Proofs.SrcDefs Model.Packet Proofs.PacketWire Proofs.AttrsWire Proofs.Oracles.
 Open Scope list_scope.
 Open Scope nat_scope.
 
